@@ -110,6 +110,26 @@ class C04(Check):
             for c1 in BOOLS:
                 for r1 in renderings(c1, "x"):
                     add("BNOT", optext, c1, r1, None, None, unary=True)
+        # the same expression node evaluated in a loop while the OTHER operand changes (true, false, null):
+        # a literal/typed null, true or false on one side must mean the same in every iteration
+        seqvals = ["B:1", "B:0", "N:b0", "B:0", "B:1"]
+        for opname, optext in LOGIC:
+            for c1 in BOOLS:
+                for r1 in renderings(c1, "x"):
+                    for side in ("l", "r"):
+                        n += 1
+                        prov1, e1, s1, v1, t1 = r1
+                        E = "%s %s ys.at(i)" % (e1, optext) if side == "l" else "ys.at(i) %s %s" % (optext, e1)
+                        # E is used directly as a condition / argument (an assignment `v = E` would swap the old
+                        # value of v into the operand cell and mask an overwritten constant)
+                        src = (PRELUDE + 's = ""; u = ""; q = "";\n'
+                               'for i in 0 to 4 loop if %s then s = s + "T"; else s = s + "-"; end if; end loop;\n'
+                               'for i in 0 to 4 loop if isnull(%s) then u = u + "N"; else u = u + "-"; end if; end loop;\n'
+                               'for i in 0 to 4 loop v = %s; if isnull(v) then q = q + "N"; elsif v then q = q + "T"; else q = q + "F"; end if; end loop;\n'
+                               'zn = null; zt = true; zf = false;\n' % (E, E, E))
+                        impl = "|".join(["new 0"] + s1 + ["set 0 %s Tb1[%s]" % (hx("YS"), ",".join(seqvals)), "prog 0 " + hx(src), "dump 0"])
+                        cases.append(Case("c%d" % n, "opseq %s %s %s %s" % (side, opname, v1, ",".join(seqvals)), impl,
+                                          {"E": E, "prov": [prov1, "loop-" + side], "seq": True}))
         allc = dict(BOOLS)
         allc.update(OTHERS)
         nulls = [k for k, v in allc.items() if v.startswith("N:")]
@@ -139,6 +159,22 @@ class C04(Check):
         self.distinct.add((c.model_line, tuple(c.meta["prov"])))
         if len(self.samples) < 10 and self.rng.random() < 0.005:
             self.samples.append({"E": c.meta["E"], "model": mout, "impl_prog": prog, "dump": dump[:200]})
+        if c.meta.get("seq"):
+            if prog != "ok-":
+                return self.record_violation("loop program failed", c, prog, m)
+            d = parse_dump(dump)
+            full = "".join({"ok B:1": "T", "ok B:0": "F"}.get(x, "N" if x.startswith("ok N:") else "?") for x in mout.split(";"))
+            for var, want in (("S", "".join(ch if ch == "T" else "-" for ch in full)),
+                              ("U", "".join(ch if ch == "N" else "-" for ch in full)), ("Q", full)):
+                got = d["syms"].get(var, ("", "", "?"))[2].replace("/l", "").replace("/t", "")
+                if got != "S:" + want.encode().hex():
+                    return self.record_violation("`%s` evaluated in a loop over (true,false,null,false,true) gives %s, the model gives %s"
+                                                 % (c.meta["E"], bytes.fromhex(got[2:]).decode() if got.startswith("S:") else got, want), c, got, m)
+            for r, v in (("ZN", "N:?0"), ("ZT", "B:1"), ("ZF", "B:0")):
+                g = d["syms"].get(r, ("", "", "?"))[2].replace("/l", "").replace("/t", "")
+                if g != v:
+                    return self.record_violation("literal constant changed meaning after the loop: %s = %s" % (r, g), c, g, m)
+            return
         if mout.startswith(("perr", "rerr")):
             if not outcomes_agree(prog, mout):
                 self.record_violation("implementation differs from the model (error outcome)", c, prog, m)
